@@ -357,6 +357,13 @@ func (e *seqEngine) eval(v ssa.Value, p *pathCtx) seqVal {
 				return e.evalArrayLit(al, p)
 			}
 		}
+		// a slice made with spare capacity and then extended in place: m := make(T, n, n+1); m = m[:n+1]; m[n] = x.
+		// The pieces copied / stored through either view tile the extended length
+		if mk, isMk := resolveAlong(x.X, p.pred).(*ssa.MakeSlice); isMk && x.Low == nil && x.High != nil && x.Max == nil {
+			if _, isConst := constInt(x.High); !isConst {
+				return e.evalMakeLen(mk, x.High, []ssa.Value{x}, p)
+			}
+		}
 		inner := e.eval(x.X, p)
 		if inner.Unknown != "" {
 			return inner
@@ -457,7 +464,13 @@ func elemAtom(ev ssa.Value, pred map[*ssa.BasicBlock]*ssa.BasicBlock) atom {
 // evalMake: make(T, n) followed by copy(dst, a); copy(dst[len(a):], b)...
 // or make(T, 0, cap) used as an empty fresh base.
 func (e *seqEngine) evalMake(m *ssa.MakeSlice, p *pathCtx) seqVal {
-	if l, ok := constInt(m.Len); ok && l == 0 {
+	return e.evalMakeLen(m, m.Len, nil, p)
+}
+
+// evalMakeLen: the made slice seen with length lenV (its own length, or the bound of an in-place extension whose
+// views are listed in more).
+func (e *seqEngine) evalMakeLen(m *ssa.MakeSlice, lenV ssa.Value, more []ssa.Value, p *pathCtx) seqVal {
+	if l, ok := constInt(lenV); ok && l == 0 {
 		return seqVal{Fresh: true}
 	}
 	// collect copies into m on this path, keyed by offset expression
@@ -517,6 +530,9 @@ func (e *seqEngine) evalMake(m *ssa.MakeSlice, p *pathCtx) seqVal {
 		}
 	}
 	visit(m, "")
+	for _, mv := range more {
+		visit(mv, "")
+	}
 	if len(cps) == 0 {
 		return seqVal{Unknown: "make(T, n) with n != 0 and no recognisable copy"}
 	}
@@ -556,7 +572,7 @@ func (e *seqEngine) evalMake(m *ssa.MakeSlice, p *pathCtx) seqVal {
 	}
 	// the made length must be the sum of the copied lengths
 	want := offExpr
-	got := offKey(m.Len, 0)
+	got := offKey(lenV, 0)
 	if got != want && !sameSum(got, lens) {
 		return seqVal{Unknown: "made length " + got + " is not the sum of the copied lengths " + want}
 	}
